@@ -117,7 +117,7 @@ def PresG (V : St → List Val) (I J : St → List Nat → Prop) (f : St → CM 
 
 theorem markersOk_back {V : St → List Val} {s1 s' : St} (hg : G V s1 s') (h : markersOk (items V s') = true) :
     markersOk (items V s1) = true := by
-  obtain ⟨_, ext, e⟩ := hg
+  obtain ⟨_, ⟨ext, e⟩, _⟩ := hg
   rw [e] at h
   exact markersOk_prefix _ _ h
 
